@@ -77,6 +77,8 @@ structure FB.WF (fb : FB) : Prop where
   ibl_some : ∀ l, l < 26 → ∃ v, fb.ibl[l]? = some v
   ibl_le : ∀ (l v : Nat), fb.ibl[l]? = some v → v ≤ fb.primes.size
   ge2 : ∀ (i p : Nat), fb.primes[i]? = some p → 2 ≤ p
+  /-- "a factor base consisting of 24-bit primes" (`prepare_factor_base` drops `p ≥ 2^24`) -/
+  lt24 : ∀ (i p : Nat), fb.primes[i]? = some p → p < 2 ^ 24
   sorted : ∀ (i j p q : Nat), i < j → fb.primes[i]? = some p → fb.primes[j]? = some q → p < q
 
 /-- both root tables are reduced. -/
@@ -94,6 +96,13 @@ theorem FB.WF.ibl_mono {fb : FB} (h : fb.WF) {l l' v v' : Nat} (hl : l ≤ l') (
   have a2 := (h.ibl_spec l' v' v' p h2 hp)
   have : ¬ bitlen p < l' := fun hb => absurd (a2.2 hb) (lt_irrefl _)
   omega
+
+theorem FB.WF.inClass_ibl {fb : FB} (h : fb.WF) {i p : Nat} (hp : fb.primes[i]? = some p) :
+    ∃ v v', fb.ibl[bitlen p]? = some v ∧ fb.ibl[bitlen p + 1]? = some v' := by
+  have := (bitlen_lt_succ_iff p 24).2 (h.lt24 i p hp)
+  obtain ⟨v, hv⟩ := h.ibl_some (bitlen p) (by omega)
+  obtain ⟨v', hv'⟩ := h.ibl_some (bitlen p + 1) (by omega)
+  exact ⟨v, v', hv, hv'⟩
 
 theorem FB.WF.prime_at {fb : FB} (_h : fb.WF) {i : Nat} (hi : i < fb.primes.size) :
     ∃ p, fb.primes[i]? = some p := ⟨fb.primes[i], Array.getElem?_eq_getElem hi⟩
